@@ -42,26 +42,73 @@ impl ClockSpeed {
 			ClockSpeed::TicksPerMinute(ticks_per_minute) => *ticks_per_minute,
 		}
 	}
+
+	/// Interpolates between two speeds in the unit of the starting speed `a`.
+	///
+	/// Used when `a` is infinite in the unit of the target speed (0 ticks per second
+	/// is infinitely many seconds per tick, and the other way around), which would
+	/// make every value interpolated in that unit NaN.
+	#[must_use]
+	fn interpolate_in_unit_of_start(a: Self, b: Self, amount: f64) -> Self {
+		match a {
+			ClockSpeed::SecondsPerTick(start) => {
+				let value = Tweenable::interpolate(start, b.as_seconds_per_tick(), amount);
+				// (an infinite difference times an amount of 0 is NaN)
+				if value.is_nan() {
+					a
+				} else {
+					ClockSpeed::SecondsPerTick(value)
+				}
+			}
+			ClockSpeed::TicksPerSecond(start) => {
+				let value = Tweenable::interpolate(start, b.as_ticks_per_second(), amount);
+				if value.is_nan() {
+					a
+				} else {
+					ClockSpeed::TicksPerSecond(value)
+				}
+			}
+			ClockSpeed::TicksPerMinute(start) => {
+				let value = Tweenable::interpolate(start, b.as_ticks_per_minute(), amount);
+				if value.is_nan() {
+					a
+				} else {
+					ClockSpeed::TicksPerMinute(value)
+				}
+			}
+		}
+	}
 }
 
 impl Tweenable for ClockSpeed {
 	fn interpolate(a: Self, b: Self, amount: f64) -> Self {
+		// interpolate in the unit of the target speed, unless the starting speed is
+		// infinite in that unit (the interpolated value is then not finite)
 		match b {
-			ClockSpeed::SecondsPerTick(b) => ClockSpeed::SecondsPerTick(Tweenable::interpolate(
-				a.as_seconds_per_tick(),
-				b,
-				amount,
-			)),
-			ClockSpeed::TicksPerSecond(b) => ClockSpeed::TicksPerSecond(Tweenable::interpolate(
-				a.as_ticks_per_second(),
-				b,
-				amount,
-			)),
-			ClockSpeed::TicksPerMinute(b) => ClockSpeed::TicksPerMinute(Tweenable::interpolate(
-				a.as_ticks_per_minute(),
-				b,
-				amount,
-			)),
+			ClockSpeed::SecondsPerTick(target) => {
+				let value = Tweenable::interpolate(a.as_seconds_per_tick(), target, amount);
+				if value.is_finite() {
+					ClockSpeed::SecondsPerTick(value)
+				} else {
+					ClockSpeed::interpolate_in_unit_of_start(a, b, amount)
+				}
+			}
+			ClockSpeed::TicksPerSecond(target) => {
+				let value = Tweenable::interpolate(a.as_ticks_per_second(), target, amount);
+				if value.is_finite() {
+					ClockSpeed::TicksPerSecond(value)
+				} else {
+					ClockSpeed::interpolate_in_unit_of_start(a, b, amount)
+				}
+			}
+			ClockSpeed::TicksPerMinute(target) => {
+				let value = Tweenable::interpolate(a.as_ticks_per_minute(), target, amount);
+				if value.is_finite() {
+					ClockSpeed::TicksPerMinute(value)
+				} else {
+					ClockSpeed::interpolate_in_unit_of_start(a, b, amount)
+				}
+			}
 		}
 	}
 }
